@@ -61,7 +61,9 @@ def run(tier, vd):
     sl = os.path.join(OUT, "traces", "lowpan.c20.iphc-slice.ndjson")
     with open(sl, "w") as f:
         f.write(json.dumps({"ev": "reset", "run": 0, "world": "lowpan"}) + "\n")
-        for e in [e for e in ev if e.get("ev") == "iphc"][:300]:
+        # (rows the canary can mutate must be among them, wherever the enumeration order puts them)
+        iph = [e for e in ev if e.get("ev") == "iphc"]
+        for e in iph[:250] + [e for e in iph[250:] if e["s"]["d"] == "mc-32"][:50]:
             f.write(json.dumps(e) + "\n")
     canary_check(vd, "LowpanTrace", sl, mut5, "W5", "c20.W5", max_runs=5)
     vd.cov["exhaustive"] = True
